@@ -59,8 +59,8 @@ def run(ctx):
     r = sh(["python3", os.path.join(VERIF, "tools", "gen_epoch.py")])
     ctx.log(r.stdout.strip() or r.stderr.strip())
     if r.returncode != 0:
-        violation(ctx, "the reclamation translator could not read TreeSlot: " + (r.stdout + r.stderr)[-400:],
-                  "# translator tools/gen_epoch.py failed; theorem Feox.C20.tree_slot_no_use_after_free cannot be re-checked\n" + r.stdout + r.stderr, no_input=True, tag="epoch")
+        violation(ctx, "the reclamation translator could not read TreeSlot: " + ((r.stdout or "") + (r.stderr or ""))[-400:],
+                  "# translator tools/gen_epoch.py failed; theorem Feox.C20.tree_slot_no_use_after_free cannot be re-checked\n" + (r.stdout or "") + (r.stderr or ""), no_input=True, tag="epoch")
     quick = ctx.tier == "quick"
     extra = ('cases=0', 'inflight=%d' % (400 if quick else 20000), 'scanrace=%d' % (4 if quick else 100))
     def hook(ctx2, cov):
